@@ -21,6 +21,9 @@ def run_prop(prop, variants):
         tier = os.environ.get("SEED_TIER", "quick")
         t0 = time.time()
         rc, o = sh("./check %s --tier %s --no-evidence%s" % (prop, tier, " --fail-fast" if os.environ.get("SEED_FAIL_FAST", "1") == "1" else ""), V, env)
+        if rc == 2 and "--fail-fast" in " --fail-fast" and os.environ.get("SEED_FAIL_FAST", "1") == "1":
+            # fail-fast stopped on a counterexample that did not reproduce natively: let every harness speak
+            rc, o = sh("./check %s --tier %s --no-evidence" % (prop, tier), V, env)
         sh("git reset -q; git checkout -- . ; git clean -fdq -e target", wt)
         fails = re.findall(r"^\s+\[\w+\] (\S+)\s+(fail|inconclusive|infra)\s", o, re.M)
         cex = re.findall(r"counterexample: harness (\S+): (.*?) @", o)
